@@ -4,9 +4,9 @@
       document (root 1)  {"a":[10,{"b~":5}],"A":2,"c/d":3}     nodes 1-7, key blocks 101-105
       pointers (root 20) ["/a/1/b~0", "/c~1d", "/a/2", "a"]     string nodes 21-24, valuestring blocks 201-204
     allocator pointer 1000. *)
-From CJ Require Import Base Dbl Heap Forest ForestLemmas CoreDefs CoreRefineFrame CoreRefineDupValue CoreLedgerGen.
+From CJ Require Import Base Dbl Heap Forest ForestLemmas CoreSpec CoreDefs CoreRefineFrame CoreRefineDupValue CoreLedgerGen.
 From CJ Require Import TierBridgeDefs MergeHeapDefs MergeHeapInv MergeHeapEx PatchHeapDefs PatchHeapPath PatchHeapPointer PatchHeapStr PatchHeapSteps PatchHeapDetach
-  PatchHeapApplyDefs PatchHeapOps PatchHeapFinish PatchHeapApply.
+  PatchHeapApplyDefs PatchHeapOps PatchHeapFinish PatchHeapApply PatchHeapTest.
 From CJ Require Tree PointerDefs PatchDefs CoreOps.
 From CJ.gen Require Import Constants.
 From stdpp Require Import gmap.
@@ -240,4 +240,75 @@ Proof.
   destruct (PatchDefs.apply_patch (reify (h_str pa_heap) pa_doc) (reify (h_str pa_heap) (T pid dpt cpt)) true) as [[[st doc'] pt']| |]; [|done|done].
   intros H6 H8. destruct (H H6 H8) as (h' & docT & E & I' & _ & Hre & _ & _ & NL & _).
   exists h', docT. split; [exact E|]. split; [exact I'|]. split; [exact Hre|]. apply NL, heap_of_forest_NoLeak.
+Qed.
+
+(** * stage 5: the test operation *)
+(** document {"o":{"b":1,"a":2},"n":5}; patch array [test /o {"a":2,"b":1}; test /n 6] *)
+Definition pt_doc_v : Tree.node :=
+  vobj None [vobj (Some [111]) [vnum 1 (Some [98]); vnum 2 (Some [97])]; vnum 5 (Some [110])].
+Definition pt_ops : list Tree.node :=
+  [ pa_op PatchDefs.s_test [47;111] [vobj (Some PatchDefs.s_value) [vnum 2 (Some [97]); vnum 1 (Some [98])]];
+    pa_op PatchDefs.s_test [47;110] [vnum 6 (Some PatchDefs.s_value)] ].
+Definition pt_patches_v : Tree.node := varr None pt_ops.
+Definition pt_e1 := enc pt_doc_v 1.
+Definition pt_e2 := enc pt_patches_v (pt_e1.2).
+Definition pt_doc : tree := pt_e1.1.1.
+Definition pt_patches : tree := pt_e2.1.1.
+Definition pt_St : gmap positive bytes := list_to_map (pt_e1.1.2 ++ pt_e2.1.2).
+Definition pt_F : forest := F2 [] [] [] pt_doc pt_patches.
+Definition pt_heap : heap := heap_of_forest pt_F pt_St.
+Definition pt_el (k : nat) : tree := default pt_doc (tchildren pt_patches !! k).
+Definition pt_run (k : nat) : out (Z * heap) := apply_patch nofail (Some (tid pt_doc)) (Some (tid (pt_el k))) true pt_heap.
+Definition pt_dump (k : nat) (x : positive) := out_val (CoreOps.dump_node 50 (Some x) (out_heap (pt_run k) pt_heap)).
+
+Lemma pt_MInv : MInv pt_heap pt_F.
+Proof. apply heap_of_forest_MInv; vm_compute; reflexivity. Qed.
+
+(** the heap-level runs against the value-level model: status, the document (its object "o" now SORTED in place:
+    {"a":2,"b":1}), the patch element (its "value" member sorted as well — it was already), the ledger unchanged *)
+Lemma pt_runs :
+  out_val (pt_run 0) = Some 0 /\ out_val (pt_run 1) = Some 1 /\
+  (match PatchDefs.apply_patch pt_doc_v (default pt_doc_v (pt_ops !! 0%nat)) true with
+   | Ok (st, d, p) => st = 0 /\ pt_dump 0 (tid pt_doc) = Some (Some (d, true)) /\ pt_dump 0 (tid (pt_el 0)) = Some (Some (p, true))
+   | _ => False
+   end) /\
+  pt_dump 0 (tid pt_doc) =
+    Some (Some (vobj None [vobj (Some [111]) [vnum 2 (Some [97]); vnum 1 (Some [98])]; vnum 5 (Some [110])], true)) /\
+  bool_decide (lib_live (out_heap (pt_run 0) pt_heap) = lib_live pt_heap) = true.
+Proof. vm_compute. done. Qed.
+
+(** a boolean check of [all_keyed] *)
+Definition has_keyb (St : gmap positive bytes) (c : tree) : bool := match key_string St c with Some _ => true | None => false end.
+Definition all_keyedb (St : gmap positive bytes) (t : tree) : bool :=
+  forallb (fun n => if Z.land (rd_type (tdata n)) 255 =? c_cJSON_Object then forallb (has_keyb St) (tchildren n) else true) (nodes_t t).
+Lemma all_keyedb_sound St t : all_keyedb St t = true -> all_keyed St t.
+Proof.
+  unfold all_keyedb. rewrite forallb_forall. intros H i d cs Hn Ho. specialize (H (T i d cs) ltac:(by apply elem_of_list_In)).
+  cbn [tdata tchildren] in H. rewrite Ho, Z.eqb_refl in H. rewrite forallb_forall in H. apply Forall_forall. intros c Hc.
+  specialize (H c ltac:(by apply elem_of_list_In)). unfold has_keyb in H. unfold has_key. destruct (key_string St c); [by eexists|done].
+Qed.
+
+(** the hypotheses of [apply_patch_test_refines] hold, and its conclusion for operation 0 *)
+Lemma pt_stage5 :
+  MInv pt_heap pt_F /\ NoLeak pt_heap pt_F /\ subtree_t pt_patches [0%nat] = Some (pt_el 0) /\
+  all_keyed (h_str pt_heap) pt_doc /\ all_keyed (h_str pt_heap) (pt_el 0) /\
+  PatchDefs.decode_patch_operation (reify (h_str pt_heap) (pt_el 0)) true = Ok PatchDefs.TEST /\
+  exists h' docT ptT,
+    apply_patch nofail (Some (tid pt_doc)) (Some (tid (pt_el 0))) true pt_heap = Ret (0, h') /\
+    MInv h' (F2 [] [] [] docT (put_t pt_patches [0%nat] ptT)) /\ NoLeak h' (F2 [] [] [] docT (put_t pt_patches [0%nat] ptT)) /\
+    reify (h_str pt_heap) docT = vobj None [vobj (Some [111]) [vnum 2 (Some [97]); vnum 1 (Some [98])]; vnum 5 (Some [110])].
+Proof.
+  assert (Hk1 : all_keyed (h_str pt_heap) pt_doc) by (apply all_keyedb_sound; vm_compute; reflexivity).
+  assert (Hk2 : all_keyed (h_str pt_heap) (pt_el 0)) by (apply all_keyedb_sound; vm_compute; reflexivity).
+  assert (Hd : PatchDefs.decode_patch_operation (reify (h_str pt_heap) (pt_el 0)) true = Ok PatchDefs.TEST) by (vm_compute; reflexivity).
+  split; [exact pt_MInv|]. split; [apply heap_of_forest_NoLeak|]. split; [reflexivity|]. split; [exact Hk1|]. split; [exact Hk2|]. split; [exact Hd|].
+  destruct (pt_el 0) as [pid dpt cpt] eqn:Eel.
+  pose proof (apply_patch_test_refines pt_heap [] [] pt_doc pt_patches [0%nat] pid dpt cpt true pt_MInv
+                ltac:(rewrite <- Eel; reflexivity) Hk1 Hk2 Hd) as H.
+  assert (Ev : PatchDefs.apply_patch (reify (h_str pt_heap) pt_doc) (reify (h_str pt_heap) (T pid dpt cpt)) true =
+               Ok (0, vobj None [vobj (Some [111]) [vnum 2 (Some [97]); vnum 1 (Some [98])]; vnum 5 (Some [110])],
+                   reify (h_str pt_heap) (T pid dpt cpt))).
+  { rewrite <- Eel. vm_compute. reflexivity. }
+  rewrite Ev in H. destruct H as (h' & docT & ptT & E & I' & _ & _ & _ & _ & Hre & _ & _ & _ & NL & _).
+  exists h', docT, ptT. split; [exact E|]. split; [exact I'|]. split; [apply NL, heap_of_forest_NoLeak|exact Hre].
 Qed.
